@@ -73,15 +73,17 @@ pub const OPS: &[&str] = &["add", "sub", "mul", "div", "fma", "sqrt", "quantize"
     "minnum", "maxnum", "minmag", "maxmag", "scaleb", "ldexp", "scalebln", "logb", "ilogb", "quantexp", "llquantexp", "quantum",
     "samequantum", "totalorder", "totalordermag", "class", "isx", "abs", "neg", "copy", "copysign", "encode", "decode",
     "from_f32", "from_f64", "from_i32", "from_u32", "from_i64", "from_u64", "lrint", "llrint", "lround", "llround", "cmp", "ops",
-    "to_*", "parse", "fromstr", "fromstr2", "fmt", "hash", "hasheq", "hashset", "hashslice", "o_add", "o_sub", "o_mul", "o_div", "o_rem", "o_neg", "sum", "product",
-    "fromf32_t", "fromf64_t", "serde", "nan", "consts", "macro"];
+    "parse", "fromstr", "fromstr2", "fmt", "hash", "hasheq", "hashset", "hashslice", "o_add", "o_sub", "o_mul", "o_div", "o_rem", "o_neg", "sum", "product",
+    "fromf32_t", "fromf64_t", "serde", "serde_de", "nan", "consts", "macro"];
+pub const TO_INT_TYPES: &[&str] = &["i32", "u32", "i64", "u64"];
+pub const TO_INT_KINDS: &[&str] = &["rnint", "xrnint", "floor", "xfloor", "ceil", "xceil", "int", "xint", "rninta", "xrninta"];
 
 fn run_case(t: &[&str]) -> (String, F) {
     let op = t[0];
     let m: u32 = t[1].parse().unwrap();
     let f0: F = u32::from_str_radix(t[2], 16).unwrap();
     let mut f: F = f0;
-    let md = Some(rm(m));
+    let md = if m == 9 { None } else { Some(rm(m)) };   // 9 = no mode given (the crate's default applies)
     let b = |v: bool| v as u128;
     // string-taking operations
     match op {
@@ -204,7 +206,11 @@ fn run_case(t: &[&str]) -> (String, F) {
 
 fn main() {
     let args: Vec<String> = std::env::args().collect();
-    if args.len() > 1 && args[1] == "api" { for o in OPS { println!("{}", o); } return; }
+    if args.len() > 1 && args[1] == "api" {
+        for o in OPS { println!("{}", o); }
+        for t in TO_INT_TYPES { for k in TO_INT_KINDS { println!("to_{}_{}", t, k); } }
+        return;
+    }
     std::panic::set_hook(Box::new(|i| {
         let loc = i.location().map(|l| format!("{}:{}", l.file(), l.line())).unwrap_or_default();
         let msg = i.payload().downcast_ref::<&str>().map(|s| s.to_string()).or(i.payload().downcast_ref::<String>().cloned()).unwrap_or_default();
